@@ -11,6 +11,7 @@ From Coq Require Import List Bool ZArith QArith.
 From Pandora Require Import Lib.Blocks Model.Dataset Model.Machine Model.Multiscale.
 From Pandora Require Import Spec.Language Spec.CrossCheck Spec.Multiscale.
 From Pandora Require Import Proofs.MachineP Proofs.MultiscaleP Gen.Tables Gen.MsConst.
+From Pandora Require Lib.BlockSkeleton Proofs.SkelMultiscaleP Gen.BlockLoops.
 Import ListNotations.
 Open Scope Z_scope.
 
@@ -21,6 +22,38 @@ Open Scope Z_scope.
    irrelevant: C15_chunk_of_source); the class defaults are used as they are *)
 Theorem C15_constants_match : ms_invalid_bits = IB /\ 1 <= ms_chunk_size.
 Proof. split; [reflexivity | vm_compute; discriminate]. Qed.
+
+(* per-run obligation on the regenerated SKELETON of the block loop of disparity_range
+   (Gen/BlockLoops.v, translator/gen_block_loops.py): it is the canonical double block loop that
+   Blocks.loop2 models (Lib/BlockSkeleton.v: where each running offset is initialised and advanced
+   and by what, the slice bounds of both writes, the axes, one block size >= 1, the kernels applied
+   to the inner chunk, outputs freshly allocated), both offsets start at int((W - 1) / 2) for the
+   very W of the sliding_window, the two np.full_like outputs are distinct and receive
+   nanmin - marge then nanmax + marge, and the block size is the constant of Gen/MsConst.v *)
+Theorem C15_block_loop_skeleton :
+  BlockSkeleton.skeleton_wf BlockLoops.disparity_range = true
+  /\ BlockSkeleton.ms_skeleton_ok BlockLoops.disparity_range = true
+  /\ BlockSkeleton.sk_B BlockLoops.disparity_range = ms_chunk_size.
+Proof. vm_compute. repeat split; reflexivity. Qed.
+
+(* the loop of the model IS the loop read in the source: for every coarse map at least as large as
+   the window (W >= 1), mask, marge, user interval, every np.arange stop values and initial
+   environment, the pair of range maps of the model's chunked loop at the code's chunk size is
+   (what executing the GENERATED skeleton writes into its first np.full_like array, what it writes
+   into the second), the kernels at window (i, j) being the model's nanmin - marge / nanmax + marge *)
+Theorem C15_model_loop_is_generated_skeleton : forall ws marge D V umin umax sy sx env0 r c,
+  1 <= ws -> ws <= nr D -> ws <= nc D ->
+  looped ms_invalid_bits ws marge D V umin umax ms_chunk_size r c
+  = (snd (BlockSkeleton.exec (SkelMultiscaleP.ms_kernel ms_invalid_bits ws marge D V) ws (nr D - ws + 1) (nc D - ws + 1)
+            (BlockSkeleton.sk_target 0 BlockLoops.disparity_range) BlockLoops.disparity_range sy sx
+            (env0, fun _ _ => fst (fallback umin umax))) r c,
+     snd (BlockSkeleton.exec (SkelMultiscaleP.ms_kernel ms_invalid_bits ws marge D V) ws (nr D - ws + 1) (nc D - ws + 1)
+            (BlockSkeleton.sk_target 1 BlockLoops.disparity_range) BlockLoops.disparity_range sy sx
+            (env0, fun _ _ => snd (fallback umin umax))) r c).
+Proof.
+  intros. destruct C15_block_loop_skeleton as (_ & Hok & <-).
+  apply (SkelMultiscaleP.ms_loop_is_skeleton_at ms_invalid_bits ws marge D V umin umax); assumption.
+Qed.
 
 (* the regenerated run table is the documented automaton (shared with C01) *)
 Theorem C15_run_table_wf : run_tbl_wf run_table = true.
@@ -265,6 +298,8 @@ Proof.
 Qed.
 
 Print Assumptions C15_constants_match.
+Print Assumptions C15_block_loop_skeleton.
+Print Assumptions C15_model_loop_is_generated_skeleton.
 Print Assumptions C15_run_table_wf.
 Print Assumptions C15_invalid_test.
 Print Assumptions C15_read_params_first.
